@@ -340,7 +340,9 @@ def checkCase (j : Json) : Except String Verdict := do
       -- C05/C04 (history level, from the *answers* alone): along one browser's chain of requests, a check let through on an
       -- outage answer happens less than the grace TTL after the first such check since the last confirmed one — whatever
       -- the session's own grace field says (the ghost `episodeAfter` of C05_grace_start_is_first_failure, run on the trace)
-      if strD presented "kind" == "jar" && !whitel && handlerOf (strD ora "escapedPath") == "Proxy" then
+      -- (linear chains only: the cookie the previous response left; a replayed older cookie legitimately starts over)
+      let linear := strD (getJ inp "cookie") "kind" == "jar"
+      if linear && strD presented "kind" == "jar" && !whitel && handlerOf (strD ora "escapedPath") == "Proxy" then
         match psess with
         | some s =>
           if s.slug == slug && s.host == host && s.lifetime ≥ 0 then
@@ -359,7 +361,7 @@ def checkCase (j : Json) : Except String Verdict := do
             else if kind != "none" then episode := episode.filter (·.1 != host)
           else episode := episode.filter (·.1 != host)
         | none => episode := episode.filter (·.1 != host)
-      else if handlerOf (strD ora "escapedPath") == "OAuthCallback" || strD presented "kind" != "jar" then
+      else if handlerOf (strD ora "escapedPath") == "OAuthCallback" || strD presented "kind" != "jar" || !linear then
         episode := episode.filter (·.1 != host)
       -- C04: no cookie write ever moves the lifetime later / changes identity (history level, absolute time)
       for w in iwrites do
